@@ -47,7 +47,7 @@ function BEH(o, name, which, b, id){
 }
 function MK(id, vo, ts){
   for (var i=0;i<REG.length;i++) if (REG[i][1].t==="cobj" && REG[i][1].id===id) return REG[i][0];
-  var o = {}; BEH(o,"valueOf","vo",vo,id); BEH(o,"toString","ts",ts,id);
+  var o = id >= 50 ? new Date(0) : {}; BEH(o,"valueOf","vo",vo,id); BEH(o,"toString","ts",ts,id);
   REG.push([o,{t:"cobj", id:id}]); return o;
 }
 function RUN(src){
